@@ -5,6 +5,7 @@ mod group;
 mod keyspace;
 mod model;
 mod storage;
+mod storage_random;
 mod transfer;
 
 fn main() {
@@ -18,6 +19,7 @@ fn main() {
     let rt = tokio::runtime::Builder::new_multi_thread().worker_threads(8).enable_all().build().unwrap();
     match cmd.as_str() {
         "replay-storage" => rt.block_on(storage::replay()),
+        "record-storage" => rt.block_on(storage_random::record()),
         "replay-cluster" => rt.block_on(cluster::replay()),
         "record-consistency" => rt.block_on(consistency::record()),
         "replay-transfer" => rt.block_on(transfer::replay()),
